@@ -89,15 +89,22 @@ def r2(ctx):
         calls = [(bi, t) for bi, t in b.calls() if not re.search(r"Deref::deref$|AsRef::as_ref$", t["callee"])]
         names = [t["callee"].split("::")[-1] for _, t in calls]
         probs = []
-        if names != chain or any(not t.get("resolved_local") for _, t in calls):
+        LEVEL = {"to_kdate": 1, "to_kregion": 2, "to_kservice": 3, "to_ksigning": 4}
+        own = {"KSecretKey": 0, "KDateKey": 1, "KRegionKey": 2, "KServiceKey": 3}[re.search(r"(K\w+Key)", fn).group(1)]
+        # any strictly ascending chain of derivation steps from the type's own level to the target is the same
+        # composition (`to_kdate().to_ksigning()` = `to_kdate().to_kregion().to_kservice().to_ksigning()`)
+        lv = [LEVEL.get(n_) for n_ in names]
+        asc = all(x is not None for x in lv) and all(a_ < b_ for a_, b_ in zip([own] + lv, lv)) and bool(lv) and lv[-1] == LEVEL[chain[-1]]
+        if not asc or len(calls) < 2 or any(not t.get("resolved_local") for _, t in calls):
             probs.append("body is %s, expected the chain %s" % (names, chain))
         else:
-            # first call on self, second on the first's result; every other argument <= like-named parameter
+            # first call on self, each later one on the previous one's result; every other argument <= like-named parameter
             if 1 not in b.slice_op(calls[0][1]["args"][0]).locals:
                 probs.append("first step is not applied to self")
-            s2 = b.slice_op(calls[1][1]["args"][0])
-            if not any(cb == calls[0][0] for cb, _ in s2.calls):
-                probs.append("second step is not applied to the first step's result")
+            for k_ in range(1, len(calls)):
+                sk = b.slice_op(calls[k_][1]["args"][0], stop_at_calls=lambda t_: bool(re.search(r"::to_k\w+$", t_.get("callee", ""))))
+                if not any(cb == calls[k_ - 1][0] for cb, _ in sk.calls):
+                    probs.append("step %d is not applied to the previous step's result" % (k_ + 1))
             if op_local(b.defs()[0][0]["term"]["args"][0]) is None if b.defs().get(0) and b.defs()[0][0]["kind"] == "call" else False:
                 pass
             for bi, t in calls:
@@ -116,12 +123,12 @@ def r2(ctx):
                     if sl.params != {pl} or sl.calls or sl.consts:
                         probs.append("argument `%s` of %s is fed from parameter(s) %s" % (pn, t["callee"].split("::")[-1], sorted(b.names.get(x) for x in sl.params)))
             rd = [d for d in b.defs().get(0, []) if d["kind"] == "call"]
-            if len(rd) != 1 or rd[0]["block"] != calls[1][0]:
+            if len(rd) != 1 or rd[0]["block"] != calls[-1][0]:
                 probs.append("the result is not the last step's value")
         if probs:
             yield VIOL("C06-R2", fn + "/composition", "; ".join(probs), where=loc(b.j["span"]))
         else:
-            yield PASS("C06-R2", fn + "/composition", "self.%s(..).%s(..) with like-named arguments" % tuple(chain), [loc(b.j["span"])])
+            yield PASS("C06-R2", fn + "/composition", "self.%s with like-named arguments" % ".".join(n_ + "(..)" for n_ in names), [loc(b.j["span"])])
 
 
 @M.rule("C06-R3", "secret storage: prefix, bounded copy of the untransformed secret, stored length, capacity check, read-back")
@@ -260,6 +267,18 @@ def r3(ctx):
     if narrow:
         yield VIOL("C06-R3", "from_str/capacity-narrowed", "Ok(..) needs more than M >= 4 and len + 4 <= M (%s): a secret that fits the buffer is refused" % [lf_str(f_) + " <= 0" for f_ in narrow], where=b.span_of_block(ag[0]))
     errs = result_aggs(b, "Err")
+    if len(errs) == 2:
+        # sibling: `let Some(cap) = M.checked_sub(4) else { return Err(KeyTooLongError) }; if len > cap { return Err(..) }`
+        # - the first exit sits on the None edge of the checked subtraction (M < 4), the second is the comparison
+        def on_none_edge(eb):
+            for pl, vals, other, a in discr_guard_variants(b, eb):
+                if (vals == [0] or (not vals and other)) and b.slice([pl["local"]]).has_call(r"::checked_sub$"):
+                    return True
+            return False
+
+        none_side = [x for x in errs if on_none_edge(x[0])]
+        if len(none_side) == 1:
+            errs = [x for x in errs if x is not none_side[0]]
     e = one(errs, "Err(KeyTooLongError)")
     # Ok is reachable exactly when M >= 4 and len <= M - 4
     okf = lin.facts_at(ag[0])
